@@ -230,8 +230,12 @@ def run_main(spec, acc):
         acc.obs('shared_value_equal_to_mutable_default:sibling-argument')
     # some TaggedValues without a value (build must fail before and after)
     if rng.random() < 0.1:
+      # (not the ones passed positionally: without a value they leave a hole in *args - the known
+      # finding probed by C14)
+      positional = {c.uid for n in gen.walk(root) if isinstance(n, gen.B) for c in n.pos}
       for n in gen.walk(root):
-        if isinstance(n, gen.B) and n.btype == 'TaggedValue' and rng.random() < 0.5:
+        if (isinstance(n, gen.B) and n.btype == 'TaggedValue' and n.uid not in positional
+            and rng.random() < 0.5):
           n.kw = {}
     sketch = gen.sketch(root)
     try:
